@@ -1,48 +1,12 @@
 /-
-C31: the inductive invariant of guarded executions (sends not concurrent with a deactivation; a
-direct deactivation only on an idle grain with an empty mailbox, no turn starting meanwhile) and its
-preservation by every step.
+C31: the inductive invariant of guarded executions (a direct deactivation only while no turn is in
+progress, no turn starting meanwhile, one at a time) and its preservation by every step.
 -/
 import GoaktVerif.Lemmas.C31
 
 namespace GoaktVerif.C31
 open GoaktVerif.Model.C31 GoaktVerif.Spec.C06
 open GoaktVerif.Model.C06 (Sched trySchedule)
-
-def okBox : List GMsg → Bool
-  | [] => true
-  | .user :: r => okBox r
-  | _ :: r => r.all (· != .user)
-
-theorem okBox_of_noUser (l : List GMsg) (h : l.all (· != .user) = true) : okBox l = true := by
-  cases l with
-  | nil => rfl
-  | cons m r =>
-    simp only [List.all_cons, Bool.and_eq_true] at h
-    cases m <;> simp_all [okBox]
-
-theorem okBox_append_user (l : List GMsg) (h : l.all (· == .user) = true) : okBox (l ++ [.user]) = true := by
-  induction l with
-  | nil => rfl
-  | cons m r ih =>
-    simp only [List.all_cons, Bool.and_eq_true] at h
-    cases m <;> simp_all [okBox]
-
-theorem noUser_append (l : List GMsg) (m : GMsg) (h : l.all (· != .user) = true) (hm : m ≠ .user) :
-    (l ++ [m]).all (· != .user) = true := by
-  simp [List.all_append, h, hm]
-
-theorem okBox_append_pill (l : List GMsg) (m : GMsg) (h : okBox l = true) (hm : m ≠ .user) : okBox (l ++ [m]) = true := by
-  induction l with
-  | nil => cases m <;> simp_all [okBox]
-  | cons x r ih =>
-    cases x
-    · simpa [okBox] using ih (by simpa [okBox] using h)
-    · simp only [List.cons_append, okBox] at h ⊢; exact noUser_append r m h hm
-    · simp only [List.cons_append, okBox] at h ⊢; exact noUser_append r m h hm
-
-theorem okBox_of_forall (l : List GMsg) (h : ∀ x, x ∈ l → ¬ x = GMsg.user) : okBox l = true :=
-  okBox_of_noUser l (by simpa using h)
 
 def lateDirect (c : Cfg) : Bool :=
   match c.dea with
@@ -62,10 +26,6 @@ structure GInv (c : Cfg) : Prop where
   k : c.active = true → c.mon.posts = 0 ∨ c.w.inDeaLate = true ∨ lateDirect c = true
   kb1 : ∀ v b, c.w = .dea .deaB v b → c.active = true
   kb2 : ∀ i, c.threads i = .mDea .deaB → c.active = true
-  nu1 : c.w.inDea = true → c.box.all (· != .user) = true
-  nu2 : c.dea ≠ none → c.box.all (· != .user) = true
-  nu3 : c.mon.posts ≠ 0 → c.box.all (· != .user) = true
-  okb : okBox c.box = true
   early0 : c.mon.preDone = false → c.mon.posts = 0
   ok2 : c.mon.c2 = true
   ok3 : c.mon.c3 = true
@@ -73,8 +33,8 @@ structure GInv (c : Cfg) : Prop where
 
 macro "g_solve" : tactic =>
   `(tactic| (constructor <;> (try assumption) <;>
-      simp_all [emit, monStep, finish, GW.inDeaLate, GW.inDea, lateDirect, sameOrNone, wid, tidOf, okBox] <;>
-      (try assumption) <;> (try (apply okBox_of_forall; assumption))))
+      simp_all [emit, monStep, finish, GW.inDeaLate, GW.inDea, lateDirect, sameOrNone, wid, tidOf] <;>
+      (try assumption)))
 
 theorem no_direct_of_dea_none (c : Cfg) (d1 : ∀ i, (c.threads i).direct = true ↔ c.dea = some i)
     (hd : c.dea = none) : ∀ i pc, c.threads i ≠ .mDea pc := by
@@ -83,7 +43,7 @@ theorem no_direct_of_dea_none (c : Cfg) (d1 : ∀ i, (c.threads i).direct = true
   simp [hd] at this
 
 theorem ginv_w (c : Cfg) (hB : Base c) (hG : GInv c) (hg : okStep c 0 = true) : GInv (wStep c) := by
-  obtain ⟨d1, ex, recvBy, postBy, k, kb1, kb2, nu1, nu2, nu3, okb, early0, ok2, ok3, ok4⟩ := hG
+  obtain ⟨d1, ex, recvBy, postBy, k, kb1, kb2, early0, ok2, ok3, ok4⟩ := hG
   have hq := hB.quiet
   unfold wStep
   split
@@ -91,13 +51,13 @@ theorem ginv_w (c : Cfg) (hB : Base c) (hG : GInv c) (hg : okStep c 0 = true) : 
     simp only [okStep, hw] at hg
     split
     · g_solve
-    · exact ⟨d1, ex, recvBy, postBy, k, kb1, kb2, nu1, nu2, nu3, okb, early0, ok2, ok3, ok4⟩
+    · exact ⟨d1, ex, recvBy, postBy, k, kb1, kb2, early0, ok2, ok3, ok4⟩
   · g_solve
   · rename_i b hw
     have hd := ex (by simp [hw])
     split
     · g_solve
-    · g_solve
+    · split <;> g_solve
     · split <;> g_solve
     · split <;> g_solve
   · rename_i hw
@@ -117,7 +77,7 @@ theorem ginv_w (c : Cfg) (hB : Base c) (hG : GInv c) (hg : okStep c 0 = true) : 
 /-- frame: re-pointing a thread that is not inside the direct deactivation to a program counter outside it -/
 theorem ginv_setT (c : Cfg) (i : Nat) (pc : GT) (hG : GInv c)
     (h1 : (c.threads i).direct = false) (h2 : pc.direct = false) : GInv (setT c i pc) := by
-  obtain ⟨d1, ex, recvBy, postBy, k, kb1, kb2, nu1, nu2, nu3, okb, early0, ok2, ok3, ok4⟩ := hG
+  obtain ⟨d1, ex, recvBy, postBy, k, kb1, kb2, early0, ok2, ok3, ok4⟩ := hG
   have hni : c.dea ≠ some i := by
     intro h; have := (d1 i).2 h; simp [h1] at this
   have hpc2 : pc ≠ .mDea .deaB := by intro h; simp [h, GT.direct] at h2
@@ -132,15 +92,15 @@ theorem ginv_setT (c : Cfg) (i : Nat) (pc : GT) (hG : GInv c)
 
 macro "gt_solve" i:ident : tactic =>
   `(tactic| (constructor <;> (try intro j) <;> (try (by_cases hj : j = $i)) <;> (try assumption) <;>
-      simp_all [emit, monStep, finish, GW.inDeaLate, GW.inDea, lateDirect, sameOrNone, wid, tidOf, okBox, setT,
+      simp_all [emit, monStep, finish, GW.inDeaLate, GW.inDea, lateDirect, sameOrNone, wid, tidOf, setT,
         GT.direct, trySchedule, msgOf] <;>
-      (first | assumption | omega | (apply okBox_of_forall; assumption) | skip)))
+      (first | assumption | omega | skip)))
 
 macro "gu_solve" : tactic =>
   `(tactic| (constructor <;> (try assumption) <;>
-      simp_all [emit, monStep, finish, GW.inDeaLate, GW.inDea, lateDirect, sameOrNone, wid, tidOf, okBox,
+      simp_all [emit, monStep, finish, GW.inDeaLate, GW.inDea, lateDirect, sameOrNone, wid, tidOf,
         trySchedule, msgOf] <;>
-      (first | assumption | exact kb1 _ | exact kb2 _ | (apply okBox_of_forall; assumption) | skip)))
+      (first | assumption | exact kb1 _ | exact kb2 _ | skip)))
 
 theorem inDea_of_late (w : GW) (h : w.inDeaLate = true) : w.inDea = true := by
   cases w <;> simp_all [GW.inDeaLate, GW.inDea]
@@ -161,7 +121,7 @@ theorem ginv_t (c : Cfg) (i : Nat) (hB : Base c) (hG : GInv c) (hg : okStep c (i
       · have := hB.others i hi; simp [hpc, GT.creating] at this
     have hq2 := hq hpd
     refine ginv_setT _ i _ ?_ (by simp [emit, hpc, GT.direct]) (by simp [GT.direct])
-    obtain ⟨d1, ex, recvBy, postBy, k, kb1, kb2, nu1, nu2, nu3, okb, early0, ok2, ok3, ok4⟩ := hG
+    obtain ⟨d1, ex, recvBy, postBy, k, kb1, kb2, early0, ok2, ok3, ok4⟩ := hG
     have hp0 := early0 hpd
     gu_solve
   · -- aE
@@ -172,7 +132,7 @@ theorem ginv_t (c : Cfg) (i : Nat) (hB : Base c) (hG : GInv c) (hg : okStep c (i
       · have := hB.others i hi; simp [hpc, GT.creating] at this
     have hq2 := hq hpd
     refine ginv_setT _ i _ ?_ (by simp [emit, hpc, GT.direct]) (by simp [GT.direct])
-    obtain ⟨d1, ex, recvBy, postBy, k, kb1, kb2, nu1, nu2, nu3, okb, early0, ok2, ok3, ok4⟩ := hG
+    obtain ⟨d1, ex, recvBy, postBy, k, kb1, kb2, early0, ok2, ok3, ok4⟩ := hG
     have hp0 := early0 hpd
     gu_solve
   · -- sEnsure
@@ -186,29 +146,11 @@ theorem ginv_t (c : Cfg) (i : Nat) (hB : Base c) (hG : GInv c) (hg : okStep c (i
         · exact hG'
   · -- sRecv
     rename_i p hpc
-    simp only [okStep, hpc] at hg
     split
-    · rename_i hact
-      refine ginv_setT _ i _ ?_ (by simp [hpc, GT.direct]) (by simp [GT.direct])
-      obtain ⟨d1, ex, recvBy, postBy, k, kb1, kb2, nu1, nu2, nu3, okb, early0, ok2, ok3, ok4⟩ := hG
-      cases p
-      · -- a user message: the guard says nothing is being or has been deactivated
-        simp only [Bool.and_eq_true, Bool.not_eq_true', Option.isNone_iff_eq_none] at hg
-        obtain ⟨⟨hall, hnd⟩, hdn⟩ := hg
-        have hp0 : c.mon.posts = 0 := by
-          rcases k hact with h | h | h
-          · exact h
-          · have := inDea_of_late _ h; simp_all
-          · simp [lateDirect, hdn] at h
-        have hokb := okBox_append_user c.box hall
-        constructor <;> (try assumption) <;>
-          simp_all [msgOf, lateDirect, trySchedule] <;> (first | assumption | exact kb1 _ | exact kb2 _ | skip)
-      · have hokb := okBox_append_pill c.box .pill okb (by simp)
-        have hn1 := fun h => noUser_append c.box .pill (nu1 h) (by simp)
-        have hn2 := fun h => noUser_append c.box .pill (nu2 h) (by simp)
-        have hn3 := fun h => noUser_append c.box .pill (nu3 h) (by simp)
-        constructor <;> (try assumption) <;>
-          simp_all [msgOf, lateDirect, trySchedule] <;> (first | assumption | exact kb1 _ | exact kb2 _ | skip)
+    · refine ginv_setT _ i _ ?_ (by simp [hpc, GT.direct]) (by simp [GT.direct])
+      obtain ⟨d1, ex, recvBy, postBy, k, kb1, kb2, early0, ok2, ok3, ok4⟩ := hG
+      constructor <;> (try assumption) <;>
+        simp_all [msgOf, lateDirect, trySchedule] <;> (first | assumption | exact kb1 _ | exact kb2 _ | skip)
     · exact ginv_setT c i _ hG (by simp [hpc, GT.direct]) (by simp [GT.direct])
   · -- mCheck
     rename_i hpc
@@ -219,26 +161,21 @@ theorem ginv_t (c : Cfg) (i : Nat) (hB : Base c) (hG : GInv c) (hg : okStep c (i
       split
       · -- reentrancy-capable: the passivation pill goes through the mailbox
         refine ginv_setT _ i _ ?_ (by simp [hpc, GT.direct]) (by simp [GT.direct])
-        obtain ⟨d1, ex, recvBy, postBy, k, kb1, kb2, nu1, nu2, nu3, okb, early0, ok2, ok3, ok4⟩ := hG
-        have hokb := okBox_append_pill c.box .ppill okb (by simp)
-        have hn1 := fun h => noUser_append c.box .ppill (nu1 h) (by simp)
-        have hn2 := fun h => noUser_append c.box .ppill (nu2 h) (by simp)
-        have hn3 := fun h => noUser_append c.box .ppill (nu3 h) (by simp)
+        obtain ⟨d1, ex, recvBy, postBy, k, kb1, kb2, early0, ok2, ok3, ok4⟩ := hG
         constructor <;> (try assumption) <;>
           simp_all [lateDirect, trySchedule] <;> (first | assumption | exact kb1 _ | exact kb2 _ | skip)
       · -- direct deactivation begins: the guard gives an idle worker, an empty mailbox, no other direct one
         rename_i hre
-        obtain ⟨d1, ex, recvBy, postBy, k, kb1, kb2, nu1, nu2, nu3, okb, early0, ok2, ok3, ok4⟩ := hG
-        simp only [hre, Bool.false_or, Bool.and_eq_true, beq_iff_eq, List.isEmpty_iff,
-          Option.isNone_iff_eq_none] at hg
-        obtain ⟨⟨hw, hbox⟩, hdn⟩ := hg
+        obtain ⟨d1, ex, recvBy, postBy, k, kb1, kb2, early0, ok2, ok3, ok4⟩ := hG
+        simp only [hre, Bool.false_or, Bool.and_eq_true, beq_iff_eq, Option.isNone_iff_eq_none] at hg
+        obtain ⟨hw, hdn⟩ := hg
         have hnd := no_direct_of_dea_none c d1 hdn
         constructor <;> (try intro j) <;> (try (by_cases hj : j = i)) <;> (try assumption) <;>
-          simp_all [setT, lateDirect, GT.direct, GW.inDea, GW.inDeaLate, okBox] <;>
+          simp_all [setT, lateDirect, GT.direct, GW.inDea, GW.inDeaLate] <;>
           (first | assumption | omega | skip)
   · -- mDea deaB
     rename_i hpc
-    obtain ⟨d1, ex, recvBy, postBy, k, kb1, kb2, nu1, nu2, nu3, okb, early0, ok2, ok3, ok4⟩ := hG
+    obtain ⟨d1, ex, recvBy, postBy, k, kb1, kb2, early0, ok2, ok3, ok4⟩ := hG
     have hd : c.dea = some i := (d1 i).1 (by simp [hpc, GT.direct])
     have hw : c.w = .idle := by
       apply Classical.byContradiction; intro hn; have := ex hn; simp [hd] at this
@@ -248,27 +185,24 @@ theorem ginv_t (c : Cfg) (i : Nat) (hB : Base c) (hG : GInv c) (hg : okStep c (i
       · exact h
       · simp [hw, GW.inDeaLate] at h
       · simp [lateDirect, hd, hpc] at h
-    have hnu := nu2 (by simp [hd])
     constructor <;> (try intro j) <;> (try (by_cases hj : j = i)) <;> (try assumption) <;>
       simp_all [emit, monStep, setT, lateDirect, GT.direct, GW.inDea, GW.inDeaLate, sameOrNone, tidOf] <;>
       (first | assumption | omega | skip)
   · -- mDea deaE
     rename_i hpc
-    obtain ⟨d1, ex, recvBy, postBy, k, kb1, kb2, nu1, nu2, nu3, okb, early0, ok2, ok3, ok4⟩ := hG
+    obtain ⟨d1, ex, recvBy, postBy, k, kb1, kb2, early0, ok2, ok3, ok4⟩ := hG
     have hd : c.dea = some i := (d1 i).1 (by simp [hpc, GT.direct])
     have hw : c.w = .idle := by
       apply Classical.byContradiction; intro hn; have := ex hn; simp [hd] at this
-    have hnu := nu2 (by simp [hd])
     constructor <;> (try intro j) <;> (try (by_cases hj : j = i)) <;> (try assumption) <;>
       simp_all [emit, monStep, setT, lateDirect, GT.direct, GW.inDea, GW.inDeaLate, sameOrNone, tidOf] <;>
       (first | assumption | exact kb2 _ | omega | skip)
   · -- mDea fin
     rename_i hpc
-    obtain ⟨d1, ex, recvBy, postBy, k, kb1, kb2, nu1, nu2, nu3, okb, early0, ok2, ok3, ok4⟩ := hG
+    obtain ⟨d1, ex, recvBy, postBy, k, kb1, kb2, early0, ok2, ok3, ok4⟩ := hG
     have hd : c.dea = some i := (d1 i).1 (by simp [hpc, GT.direct])
     have hw : c.w = .idle := by
       apply Classical.byContradiction; intro hn; have := ex hn; simp [hd] at this
-    have hnu := nu2 (by simp [hd])
     have hothers : ∀ j, j ≠ i → (c.threads j).direct = false := by
       intro j hj
       cases h : (c.threads j).direct
